@@ -4,6 +4,6 @@ set -e
 cd "$(dirname "$0")"
 mkdir -p _build && cd _build
 coqc -Q ../../coq/theories Verif ../../coq/extract/Extract.v > extract.log 2>&1 || { cat extract.log; exit 1; }
-cp ../conv.ml ../hist.ml ../driver.ml .
-ocamlfind ocamlopt -O2 -w -a -package zarith -linkpkg model.mli model.ml conv.ml hist.ml driver.ml -o driver 2> ocaml.log || \
-ocamlfind ocamlopt -w -a -package zarith -linkpkg model.mli model.ml conv.ml hist.ml driver.ml -o driver 2> ocaml.log || { cat ocaml.log; exit 1; }
+cp ../conv.ml ../dsl.ml ../hist.ml ../driver.ml .
+ocamlfind ocamlopt -O2 -w -a -package zarith -linkpkg model.mli model.ml conv.ml dsl.ml hist.ml driver.ml -o driver 2> ocaml.log || \
+ocamlfind ocamlopt -w -a -package zarith -linkpkg model.mli model.ml conv.ml dsl.ml hist.ml driver.ml -o driver 2> ocaml.log || { cat ocaml.log; exit 1; }
